@@ -70,7 +70,11 @@ func (f *Flat) CheckChain(r *Report, rule string, fi *FuncInfo, steps []step) bo
 	// a step may have moved into a helper (a stage method): use the graph with same-package helpers spliced in
 	// when that finds steps the plain graph does not show
 	if m := missing(f); m > 0 {
-		if g := p.FlatInl(fi); g != nil && missing(g) < m {
+		var keys []string
+		for _, s := range steps {
+			keys = append(keys, s.Keys...)
+		}
+		if g := p.FlatInlExcept(fi, keys...); g != nil && missing(g) < m {
 			f = g
 		}
 	}
